@@ -89,13 +89,14 @@ def cpp_int(v):
 
 
 class IrDriver(object):
-    def __init__(self, ir, text=True):
+    def __init__(self, ir, text=True, deep=True):
         """text=False: the header was generated without enum traits, so it has no
         text methods and no enum helpers; none of them is named."""
         self.ir = ir
         self.mod = ir.module[0]
         self.traits = text
         self.text = text
+        self.deep = deep  # also instantiate every member over aligned storage (costly to compile)
         self.in_bits = False
         self.decls = []
         self.body = []  # statements inside main()
@@ -293,6 +294,10 @@ class IrDriver(object):
             self.stats["externals_skipped"] += 1
             L.append("%sverif_use(%s);" % (pad, expr))
             return
+        if td.name.canonical_name.module_file != self.mod.source_file_name:
+            # a structure of an imported module: its members are instantiated when that module is the main one
+            L.append("%sverif_use(%s.Ok()); verif_use(%s.IsComplete());" % (pad, expr, expr))
+            return
         L.append("%s%s<kWritable>(%s, depth + 1);" % (pad, self.fn(td), expr))
 
     def emit_struct_fn(self, t):
@@ -375,7 +380,7 @@ class IrDriver(object):
             L.append("    auto wc = %s::Make%sView(%sreinterpret_cast<char *>(buf), sizeof buf); verif_use(wc.Ok());" % (scope, name, pre))
             L.append("    auto vv = %s::Make%sView(%s&vec); verif_use(vv.Ok()); auto va = %s::Make%sView(%s&arr); verif_use(va.Ok());" % (scope, name, pre, scope, name, pre))
             L.append("    auto vs = %s::Make%sView(%s&str); verif_use(vs.Ok()); const std::string &cstr = str; auto vcs = %s::Make%sView(%s&cstr); verif_use(vcs.Ok());" % (scope, name, pre, scope, name, pre))
-            L.append("    auto al = %s::MakeAligned%sView<unsigned char, 8>(%sbuf, sizeof buf); verif_use(al.Ok()); %s<true>(al, 2);" % (scope, name, pre, fn))
+            L.append("    auto al = %s::MakeAligned%sView<unsigned char, 8>(%sbuf, sizeof buf); verif_use(al.Ok()); verif_use(al.IsComplete());%s" % (scope, name, pre, (" %s<true>(al, 2);" % fn) if self.deep else ""))
             L.append("    %s::%sView ro(%sVerifRO(buf, sizeof buf)); %s::%sWriter rw(%sVerifRW(buf, sizeof buf));" % (scope, name, pre, scope, name, pre))
             L.append("    %s::%sView ro2 = rw; ro2 = rw; verif_use(ro2.Ok()); if (ro.Ok()) { verif_use(ro.Equals(rw)); verif_use(rw.Equals(ro)); } verif_use(rw.TryToCopyFrom(ro));" % (scope, name))
             L.append("    %s::%sView dflt; verif_use(dflt.Ok()); verif_use(dflt.IsComplete());" % (scope, name))
